@@ -5,8 +5,10 @@
 // Engine E2/E3 (small-scope exhaustive enumeration on the REAL kai/state.StateDB): universe of
 // 3 addresses x 2 slots x values {0,1,2}; every program `P ; [finisher] ; Snapshot ; B ; Revert ;
 // observe ; Commit` up to the tier's bounds and every straight token sequence up to the tier's depth
-// over mutators + {Snapshot, Revert, Finalise, IntermediateRoot, Commit+reopen, Copy}. See DESIGN.md
-// section 4 / C08 and the `rule` written into the evidence.
+// over mutators + {Snapshot, Revert, Finalise, IntermediateRoot, Commit+reopen, Copy}, plus the deep,
+// narrow stage E3 "incarnations" (one address, 13 tokens, depth 6/7) aimed at the destruct / re-create /
+// IntermediateRoot interplay of the storage tiers. See DESIGN.md section 4 / C08 and the `rule` written
+// into the evidence.
 package main
 
 import (
@@ -48,8 +50,30 @@ var (
 	samplesFull int32
 )
 
+// failures of the known class F1 (copy-drops-journal) are all reported under one signature: only
+// their number per consequence and the smallest representative are kept.
+var (
+	midCount   = map[string]int{}
+	midBest    *failing
+	midBestKey string
+)
+
+func orderKey(prog []Op, mode int) string {
+	return fmt.Sprintf("%03d|%s|%d", len(prog), progString(prog), mode)
+}
+
 func recordFailure(prog []Op, c runCfg, f *failure) {
 	cp := append([]Op{}, prog...)
+	if isMidTx(f) {
+		k := orderKey(prog, c.Mode)
+		failMu.Lock()
+		midCount[f.class()]++
+		if midBest == nil || k < midBestKey {
+			midBest, midBestKey = &failing{prog: cp, cfg: c, f: *f}, k
+		}
+		failMu.Unlock()
+		return
+	}
 	failMu.Lock()
 	failings = append(failings, failing{prog: cp, cfg: c, f: *f})
 	if len(failings) >= maxFailing {
@@ -241,6 +265,7 @@ type replayCase struct {
 	Mode     int      `json:"mode"`
 	ModeName string   `json:"mode_name"`
 	ObsEvery bool     `json:"obs_every"`
+	ObsAddrs int      `json:"obs_addrs,omitempty"`
 	Ops      []string `json:"ops"`
 	FoundIn  []string `json:"found_in,omitempty"`
 	Detail   string   `json:"detail,omitempty"`
@@ -249,15 +274,22 @@ type replayCase struct {
 func processFailures() {
 	failMu.Lock()
 	fs := failings
+	nmid := 0
+	for _, n := range midCount {
+		nmid += n
+	}
+	if midBest != nil {
+		fs = append(fs, *midBest)
+	}
 	failMu.Unlock()
 	if len(fs) == 0 {
 		return
 	}
-	r.Add("failing_programs", int64(len(fs)))
+	r.Add("failing_programs", int64(len(failings)+nmid))
 	// deterministic order: shorter first, then by text, then by mode
 	keys := make([]string, len(fs))
 	for i := range fs {
-		keys[i] = fmt.Sprintf("%03d|%s|%d", len(fs[i].prog), progString(fs[i].prog), fs[i].cfg.Mode)
+		keys[i] = orderKey(fs[i].prog, fs[i].cfg.Mode)
 	}
 	idx := make([]int, len(fs))
 	for i := range idx {
@@ -283,14 +315,8 @@ func processFailures() {
 		r.Add("failing_program_groups_not_minimised", int64(len(reps)-maxGroups))
 		reps = reps[:maxGroups]
 	}
-	midClasses := map[string]int{}
-	for i := range fs {
-		if isMidTx(&fs[i].f) {
-			midClasses[fs[i].f.class()]++
-		}
-	}
 	var midList []string
-	for c, n := range midClasses {
+	for c, n := range midCount {
 		midList = append(midList, fmt.Sprintf("%s x%d", c, n))
 	}
 	sort.Strings(midList)
@@ -323,7 +349,7 @@ func processFailures() {
 				"touched-empty and self-destructed accounts survive Finalise/Commit on the copy, dirty storage is not finalised, the refund counter is not cleared. e.g. %s; minimal history [%s]; consequences seen in this run: %s",
 				firstLine(f2.Detail), progString(o.prog), strings.Join(midList, ", "))
 		}
-		rc := replayCase{Mode: o.cfg.Mode, ModeName: modeName[o.cfg.Mode], ObsEvery: o.cfg.ObsEvery, Ops: progStrings(o.prog), FoundIn: progStrings(orig.prog), Detail: f2.Detail}
+		rc := replayCase{Mode: o.cfg.Mode, ModeName: modeName[o.cfg.Mode], ObsEvery: o.cfg.ObsEvery, ObsAddrs: o.cfg.ObsAddrs, Ops: progStrings(o.prog), FoundIn: progStrings(orig.prog), Detail: f2.Detail}
 		p, c := o.prog, o.cfg
 		r.ViolationConfirmed(sig, what, rc, func() string {
 			f3, ok := run(p, c, nil)
@@ -468,6 +494,156 @@ func stageE2(name string, al []Op, L int, modes func(prog []Op) []int) {
 	}
 }
 
+func midTotal() int {
+	failMu.Lock()
+	defer failMu.Unlock()
+	n := 0
+	for _, c := range midCount {
+		n += c
+	}
+	return n
+}
+
+// ---------------------------------------------------------------------------------------------
+// enumeration E3 "incarnations": ONE address, deep sequences over the tokens that create, destroy and
+// re-create an account and move its storage through the dirty / pending / origin / trie tiers.
+
+func incarnationAlphabet() []Op {
+	return []Op{
+		{K: kAddBalance, A: 0, V: 1}, // make it exist (non-empty)
+		{K: kCommit, V: 1},           // ... in the trie, on a reopened StateDB
+		{K: kCreateAccount, A: 0},
+		{K: kSuicide, A: 0},
+		{K: kFinalise, V: 1},
+		{K: kIntermediateRoot, V: 0},
+		{K: kIntermediateRoot, V: 1},
+		{K: kSetState, A: 0, S: 0, V: 1},
+		{K: kSetState, A: 0, S: 0, V: 2},
+		{K: kSetState, A: 0, S: 0, V: 0},
+		{K: kSnapshot},
+		{K: kRevert, V: -1},
+		{K: kCopyC},
+	}
+}
+
+var cntIncPruned int64
+
+// usefulIncarnationProgram is a model-only pre-pass (the real object is not touched): it rejects
+// infeasible programs and programs that contain a token which, by the reference model, is a no-op
+// at that point, because the same behaviour is enumerated by a shorter sequence of the same stage:
+// Finalise with an empty journal, IntermediateRoot with nothing journalled or pending, Commit+reopen
+// with nothing done since the last reopen, Suicide of a non-existent account, SetState to the current
+// value, Revert directly after its Snapshot, a Snapshot that is never reverted to. Copies taken while
+// the journal is non-empty are left to E2 (finding F1 is decided there).
+func usefulIncarnationProgram(prog []Op) bool {
+	var (
+		m       model
+		msnaps  []model
+		since   []int // tokens since each open snapshot
+		pending bool  // something finalised but not yet flushed by IntermediateRoot/Commit
+		changed bool  // anything done since the StateDB was (re)opened
+	)
+	for _, op := range prog {
+		if !m.feasible(op, len(msnaps)) {
+			return false
+		}
+		for i := range since {
+			since[i]++
+		}
+		switch op.K {
+		case kSnapshot:
+			msnaps = append(msnaps, m)
+			since = append(since, 0)
+			continue
+		case kRevert:
+			k := len(msnaps) - 1
+			if since[k] <= 1 {
+				return false
+			}
+			m = msnaps[k]
+			msnaps, since = msnaps[:k], since[:k]
+			continue
+		case kFinalise, kIntermediateRoot, kCommit:
+			if len(msnaps) > 0 {
+				return false // open snapshot dropped unused
+			}
+			switch op.K {
+			case kFinalise:
+				if !m.jne {
+					return false
+				}
+				pending = true
+			case kIntermediateRoot:
+				if !m.jne && !pending {
+					return false
+				}
+				pending = false
+			case kCommit:
+				if !changed {
+					return false
+				}
+			}
+			m.finalise(op.V != 0)
+			if op.K == kCommit {
+				m.reopen()
+				pending, changed = false, false
+				continue
+			}
+		case kCopyC:
+			if m.jne || len(msnaps) > 0 {
+				return false
+			}
+		case kSuicide:
+			if !m.ex[op.A] {
+				return false
+			}
+			m.applyMutator(op)
+		case kSetState:
+			if m.ex[op.A] && m.ac[op.A].st[op.S] == op.V {
+				return false
+			}
+			m.applyMutator(op)
+		default:
+			m.applyMutator(op)
+		}
+		changed = true
+	}
+	return len(msnaps) == 0
+}
+
+func stageInc(name string, L int, modes func(prog []Op) []int) {
+	if skipStage(name) {
+		return
+	}
+	if stopped() {
+		stages = append(stages, stageInfo{Name: name})
+		return
+	}
+	al := incarnationAlphabet()
+	total := ipow(len(al), L)
+	done := par.For(total, 256, stopped, func(idx int64) {
+		var buf [12]Op
+		prog := buf[:0]
+		x := idx
+		for k := 0; k < L; k++ {
+			prog = append(prog, al[x%int64(len(al))])
+			x /= int64(len(al))
+		}
+		if !usefulIncarnationProgram(prog) {
+			atomic.AddInt64(&cntIncPruned, 1)
+			return
+		}
+		prog = append(prog, Op{K: kCommit, V: 1})
+		for _, m := range modes(prog) {
+			execute(prog, runCfg{Mode: m, ObsEvery: true, ObsAddrs: 1})
+		}
+	})
+	stages = append(stages, stageInfo{Name: name, Programs: total, Completed: done, Finished: done == total})
+	if done != total {
+		r.NotExhaustive(fmt.Sprintf("stage %s stopped after %d of %d sequences", name, done, total))
+	}
+}
+
 func hasKind(p []Op, ks ...Kind) bool {
 	for _, o := range p {
 		for _, k := range ks {
@@ -492,7 +668,7 @@ func replay() {
 		fmt.Println("MACHINERY-ERROR bad replay case:", err)
 		os.Exit(2)
 	}
-	c := runCfg{Mode: rc.Mode, ObsEvery: rc.ObsEvery}
+	c := runCfg{Mode: rc.Mode, ObsEvery: rc.ObsEvery, ObsAddrs: rc.ObsAddrs}
 	fmt.Printf("replaying on the real StateDB (mode %s): %s\n", modeName[c.Mode], progString(prog))
 	f, ok := run(prog, c, nil) // the verdict comes from an undisturbed execution
 	fmt.Println("trace (a second execution, with all getters read after every step):")
@@ -562,23 +738,32 @@ func main() {
 	}
 
 	fins2 := [][]Op{nil, {{K: kCommit, V: 1}}}
+	trieOnly := func(p []Op) []int { return []int{modeTrie} }
 	if r.Quick() {
 		r.SetDeadline(42 * time.Second)
-		// smallest first
+		// smallest (cheapest) first
 		stageE2("E2:straight L=1 (all modes)", straight, 1, allModes)
 		stageE2("E2:straight L=2 (all modes)", straight, 2, allModes)
+		for L := 1; L <= 4; L++ {
+			stageInc(fmt.Sprintf("E3:incarnations L=%d (all modes)", L), L, allModes)
+		}
 		stageE1("E1:|P|=0,|B|=0", core, core, 0, 0, fins, false, false)
 		stageE1("E1:|P|=0,|B|=1 full", full, full, 0, 1, fins, true, false)
 		stageE1("E1:|P|=1 core x 7 finishers,|B|=1 core (+snap)", core, core, 1, 1, fins, true, true)
 		stageE1("E1:|P|=0,|B|=2 full", full, full, 0, 2, fins, false, false)
+		stageInc("E3:incarnations L=5 (trie)", 5, trieOnly)
 		stageE1("E1:|P|=1 core x 7 finishers,|B|=2 core (+snap)", core, core, 1, 2, fins, false, true)
-		stageE1("E1:|P|=1 full x 7 finishers,|B|=1 full (+snap)", full, full, 1, 1, fins, false, true)
 		stageE2("E2:straight L=3 (snapshot modes after Commit/IntermediateRoot)", straight, 3, commitModes)
+		stageInc("E3:incarnations L=6 (trie)", 6, trieOnly)
+		stageE1("E1:|P|=1 full x 7 finishers,|B|=1 full (+snap)", full, full, 1, 1, fins, false, true)
 		stageE1("E1:|P|=1 core x {none,Commit},|B|=2 full", core, full, 1, 2, fins2, false, false)
 	} else {
 		r.SetDeadline(13 * time.Minute)
 		stageE2("E2:straight L=1 (all modes)", straight, 1, allModes)
 		stageE2("E2:straight L=2 (all modes)", straight, 2, allModes)
+		for L := 1; L <= 5; L++ {
+			stageInc(fmt.Sprintf("E3:incarnations L=%d (all modes)", L), L, allModes)
+		}
 		stageE1("E1:|P|=0,|B|=0", core, core, 0, 0, fins, false, false)
 		stageE1("E1:|P|=0,|B|=1 full nested", full, full, 0, 1, fins, true, false)
 		stageE1("E1:|P|=1 full x 7 finishers,|B|=1 full nested (+snap)", full, full, 1, 1, fins, true, true)
@@ -586,7 +771,9 @@ func main() {
 		stageE2("E2:straight L=3 (all modes)", straight, 3, allModes)
 		stageE1("E1:|P|=1 core x 7 finishers,|B|=2 core nested (+snap)", core, core, 1, 2, fins, true, true)
 		stageE1("E1:|P|=1 full x 7 finishers,|B|=2 full", full, full, 1, 2, fins, false, false)
+		stageInc("E3:incarnations L=6 (trie)", 6, trieOnly)
 		stageE2("E2:straight L=4 (snapshot modes after Commit/IntermediateRoot)", straight, 4, commitModes)
+		stageInc("E3:incarnations L=7 (trie)", 7, trieOnly)
 		stageE1("E1:|P|=0,|B|=3 core nested", core, core, 0, 3, fins, true, false)
 		stageE1("E1:|P|=2 core x 7 finishers,|B|=1 core nested (+snap)", core, core, 2, 1, fins, true, true)
 		stageE1("E1:|P|=1 core x {none,Commit},|B|=3 core nested", core, core, 1, 3, fins2, true, false)
@@ -602,11 +789,12 @@ func main() {
 	for _, st := range stages {
 		fmt.Printf("stage %-55s %10d / %10d programs\n", st.Name, st.Completed, st.Programs)
 	}
-	fmt.Printf("programs=%d infeasible=%d transitions=%d observations=%d states=%d failing=%d elapsed=%.1fs\n", cntPrograms, cntInfeasible, cntTransitions, cntObserves, distinctStates(), len(failings), time.Since(t0).Seconds())
+	fmt.Printf("programs=%d infeasible=%d transitions=%d observations=%d states=%d failing=%d elapsed=%.1fs\n", cntPrograms, cntInfeasible, cntTransitions, cntObserves, distinctStates(), len(failings)+midTotal(), time.Since(t0).Seconds())
 
 	trans := atomic.LoadInt64(&cntTransitions)
 	r.Add("programs", cntPrograms)
 	r.Add("programs_infeasible_skipped", cntInfeasible)
+	r.Add("incarnation_sequences_pruned_by_model_prepass", cntIncPruned)
 	r.Add("programs_with_snapshot_tree", cntSnapProgs)
 	r.Add("states", distinctStates())
 	r.Add("transitions", trans)
@@ -632,7 +820,9 @@ func main() {
 	r.Set("rule", "E1: every program P;[finisher];Snapshot;B;RevertToSnapshot;Commit(true)+reopen per stage list (P,B over the stated alphabet, finisher in "+
 		"{none,Finalise(t/f),IntermediateRoot(t/f),Commit(t/f)+reopen}, 'nested' = B additionally with one inner Snapshot at every position, closed by an inner Revert at every later position or left open); "+
 		"E2: every straight sequence of the stated length over core mutators + {Snapshot,Revert(latest),Revert(oldest),Finalise(t/f),IntermediateRoot(t/f),Commit(t/f)+reopen,Copy>copy,Copy>orig} closed by Commit(true)+reopen, "+
-		"each in trie mode and (where stated) with an in-memory snapshot tree kept as diff layers / flattened to the disk layer. Programs whose next token is infeasible (SubBalance/SubRefund below zero, Revert without a valid revision) are skipped and counted. "+
+		"each in trie mode and (where stated) with an in-memory snapshot tree kept as diff layers / flattened to the disk layer. "+
+		"E3 'incarnations': every sequence of the stated length over the 13 tokens {AddBalance(a0,1),Commit(t)+reopen,CreateAccount(a0),Suicide(a0),Finalise(t),IntermediateRoot(f/t),SetState(a0,s0,1/2/0),Snapshot,Revert(latest),Copy>copy} closed by Commit(true)+reopen, all getters of a0 compared with the model after every token; "+
+		"a model-only pre-pass drops infeasible sequences and sequences containing a token that is a no-op by the model at that point (covered by a shorter sequence of the stage), an unused Snapshot, or a Copy with a non-empty journal (F1 is decided in E2); the dropped sequences are counted. Programs whose next token is infeasible (SubBalance/SubRefund below zero, Revert without a valid revision) are skipped and counted. "+
 		"states = distinct reference-model states reached (fingerprints); transitions = tokens executed on the real StateDB; a revert check is non-trivial when the model state differed from the snapshot before the revert.")
 	r.Assume(
 		"the reference root is computed with go-ethereum v1.9.15 trie/rlp/keccak over rlp([nonce,balance,storageRoot,codeHash]); the repository's trie itself is C07's subject",
